@@ -30,6 +30,6 @@ CLAIM = {
     "text": PROP["explanation"],
     "design_ref": "DESIGN.md section 8, C04",
     "note": "PARTIAL: atomicity of a critical section, absence of data races and buffer aliasing are facts about the Go runtime and memory model; they are TESTED (systematic but bounded schedule exploration, stress, race detector), not proved. "
-            "Known finding F10 (Redis expiry vs re-announce). Trusted: Coq kernel+vm_compute, Glue/G04.v and GE.v, the cooperative scheduler and the mutex rewrite (sync.RWMutex -> verifRWMutex in a build-time copy of peer_store.go), wrapped redigo connections, miniredis.",
+            "Known finding F10 (Redis expiry vs re-announce). Trusted: Coq kernel+vm_compute, Glue/G04.v and GE.v, the cooperative scheduler and the mutex rewrite (sync.RWMutex -> verifRWMutex in a build-time copy of peer_store.go; the shim also reports every lock operation with its shard index - the lock trace judged against Model/Locks.v, reason 43), wrapped redigo connections, miniredis.",
     "technique": "Coq-decided linearizability against the proved sequential specification over schedule-forced executions + interleaving-machine theorems + race detector",
 }
